@@ -106,7 +106,7 @@ MayMutate(c, f) == Len(hist) = 0 \/ (c \in PairCols /\ f \in Interacting /\ inp.
 
 MutateCell == \E c \in Cols, f \in AllFields : \E k \in ClassesOf(f) :
   /\ Len(hist) < MaxMut /\ MayMutate(c, f)
-  /\ ~(k \in {"qm_ok", "qm_short", "qm_long"} /\ DepthVal(c, "dwt_depth") = Big)
+  /\ ~(k \in {"qm_ok", "qm_short", "qm_long"} /\ Big \in {DepthVal(c, "dwt_depth"), DepthVal(c, "dwt_depth_ho")})
   /\ ~(k = "dupname" /\ B.ncols < 2)
   /\ cells[c][f] = "keep"
   /\ cells' = [cells EXCEPT ![c][f] = k]
